@@ -99,6 +99,14 @@ impl Report {
         }
     }
 
+    /// Takes back the violation pushed last (its re-execution diverged). Its signature is forgotten as
+    /// well, so that another case showing the same signature is recorded and confirmed on its own.
+    pub fn retract_last(&mut self) -> Violation {
+        let v = self.violations.pop().expect("a violation was just pushed");
+        let _ = self.seen_sigs.remove(&v.signature);
+        v
+    }
+
     /// Same as `violation`, for a scenario that carries an oracle of another property too.
     pub fn violation_for(&mut self, property: &str, signature: &str, detail: String, replay: Value) {
         let before = self.violations.len();
